@@ -807,14 +807,26 @@ def _bind(pat, item, by_ref):
     if not m:
         raise VxError("N6: unsupported closure pattern %r" % pat)
     outs = []
-    for idx, comp in enumerate([x.strip() for x in m.group(1).split(",") if x.strip()]):
+    for idx, comp in enumerate(_split_top_commas(m.group(1))):
         camp = comp.startswith("&")
         name = comp[1:].strip() if camp else comp
         if name == "_":
             continue
+        comp_expr = "%s.%d" % (item, idx)
+        mt = re.fullmatch(r"\(([^()]*)\)", name)
+        if mt and not camp:
+            # nested tuple component `(a, _)`: matched through whatever the component is (value or reference); the
+            # bindings are taken by reference (match ergonomics for a reference component; for an owned component a
+            # borrow instead of a move, which at worst fails to type-check -> UNDECIDED)
+            for jdx, sub in enumerate([x.strip() for x in mt.group(1).split(",") if x.strip()]):
+                if sub == "_":
+                    continue
+                if not re.fullmatch(r"[a-z_][A-Za-z0-9_]*", sub):
+                    raise VxError("N6: unsupported closure pattern %r" % pat)
+                outs.append("let %s = &(%s).%d; " % (sub, comp_expr, jdx))
+            continue
         if not re.fullmatch(r"[a-z_][A-Za-z0-9_]*", name):
             raise VxError("N6: unsupported closure pattern %r" % pat)
-        comp_expr = "%s.%d" % (item, idx)
         # matching a tuple pattern through a reference binds components by reference
         refd = by_ref and not amp
         if refd and not camp:
